@@ -63,7 +63,8 @@ def mk_packet(rng, proto, v6, payload, field_mode, small=False):
         src, dst = rng.choice([bytes([10, 0, 0, 1]), rng.randbytes(4)]), rng.choice([bytes([10, 0, 0, 2]), rng.randbytes(4)])
     sp, dp = rng.choice([(40000, 443), (443, 40000), (rng.randrange(1, 65536), rng.randrange(1, 65536))])
     if proto == 6:
-        l4 = ns.tcp_segment(src, dst, sp, dp, rng.randrange(1 << 32), rng.randrange(1 << 32), 0x18, payload)
+        opts = rng.choice([b"", b"", b"\x01\x01\x08\x0a" + rng.randbytes(8), b"\x01" * 4, b"\x02\x04\x05\xb4", b"\x01\x01\x08\x0a" + rng.randbytes(8) + b"\x01\x01\x05\x0a" + rng.randbytes(8)])
+        l4 = ns.tcp_segment(src, dst, sp, dp, rng.randrange(1 << 32), rng.randrange(1 << 32), 0x18, payload, options=opts)
         off = 16
     else:
         l4 = ns.udp_datagram(src, dst, sp, dp, payload)
